@@ -39,6 +39,7 @@ BENIGN = {"echo", "[", "[[", "shift", "exit", "set", ":", "true", "printf", "get
 SUBST_OK = {"cd", "dirname", "pwd"}
 JOB_STEP = {"atlas/r21": ("python", "ATestRun_eljob.py"), "cms/r5": ("cmsRun", ""), "cms/r7": ("cmsRun", "")}
 BUILD_TREE = {"atlas/r21": ("rel",), "cms/r5": ("analysis",), "cms/r7": ("analysis",)}
+BUILD_TOOLS = {"atlas/r21": ("cmake", "make"), "cms/r5": ("mkedanlzr", "scram"), "cms/r7": ("mkedanlzr", "scram")}
 # frozen release differences between the r5 and r7 scripts (normalised command text), one reason each
 R5_R7_DIFF = {
     ("cp $DIR/Analyzer.cc ./src/", "cp $DIR/Analyzer.cc ./plugins/"): "CMSSW 7 mkedanlzr layout puts sources in plugins/",
@@ -263,6 +264,11 @@ def check_phases(col: Collector, key: str, con: str, rel: str, cmds: List[Cmd]):
     # build steps are not in the run phase guard and vice versa (phases are sequential top-level ifs)
     both = [c for c in steps if has_guard(c, "[ $compile = 1 ]", True) and has_guard(c, "[ $run = 1 ]", True)]
     col.add("C16.R4", con, "phases-not-nested", not both, "a step is guarded by both phase flags", rel)
+    # the build phase contains the framework's build steps, each exactly once (a frozen table: these are the tools of the three frameworks)
+    for tool_ in BUILD_TOOLS[key]:
+        n_ = [c for c in build if c.node.name == tool_]
+        col.add("C16.R4", con, f"build-step-present:{tool_}", len(n_) == 1,
+                f"`{tool_}` must run exactly once in the build phase (found {len(n_)}): without it -c leaves nothing that -r could run", rel)
     # every build tool invocation is in the build phase
     stray = [c.node.text() for c in steps if c.node.name in ("cmake", "make", "scram", "mkedanlzr") and phase_of(c) != "build"]
     col.add("C16.R4", con, "build-tools-only-under-compile", not stray, f"build tools outside the compile guard: {stray}", rel)
@@ -317,6 +323,15 @@ def check_delivery(col: Collector, key: str, con: str, rel: str, cmds: List[Cmd]
         last = seq[-1]
         col.add("C16.R6", con, f"last-step-delivers:{'&'.join(x[0][:18] + '=' + str(x[1]) for x in g[1:]) or 'always'}", mentions(last),
                 f"the last step on this run path is `{last.node.text()[:60]}`; it must be the delivery to $destination", f"{rel}:{last.node.line}")
+    # every command line that was prepared for the destination is also run, under the same conditions it was prepared under
+    for var, lst in assigns.items():
+        for v, c in lst:
+            if "$destination" in v and phase_of(c) == "run":
+                ran = [e for e in run_steps if e.node.name == "eval" and e.node.args and e.node.args[0].lstrip("$") == var
+                       and e.guards == c.guards and e.order > c.order]
+                col.add("C16.R6", con, f"prepared-delivery-is-run:{var}@{c.node.line}", len(ran) == 1,
+                        f"`{var}=...$destination...` is prepared at line {c.node.line} but `eval ${var}` does not follow under the same conditions "
+                        f"({len(ran)} found): nothing is delivered on that path and the script still exits 0", f"{rel}:{c.node.line}")
     # the delivery command is a plain copy: flags such as -n / -u / -i keep an existing (older) file at the destination
     cmds_assigned = [v.strip('"\'') for v, c in assigns.get("cmd", [])]
     col.add("C16.R6", con, "delivery-command-overwrites", bool(cmds_assigned) and all(v in ("cp", "xrdcp", "xrdcp -f", "cp -f") for v in cmds_assigned),
